@@ -279,7 +279,7 @@ func init() {
 // implementation uses when it renders keys.
 var collisionPool = []string{"a", "b", "c", "a.b", "b.c", "a.b.c", "a.", ".a", ".", "..", "a|b", "[1 2]", "[1", "1", "1.0", "10", "9", " a", "a ", "%v", "%!v(MISSING)", "é", "a\x00b"}
 
-const ruleC13 = "rapid state machine: hash-only and hash+range tables with S/N/B key types; keys drawn from a pool built from the implementation's own separator characters ('.', '|', '[', ' ', near collisions such as (\"a.b\",\"c\") vs (\"a\",\"b.c\"), prefixes, numerals) over Put / Get / Delete / UpdateItem, plus requests whose key lacks an attribute or has it with the wrong type (every operation) and updates that SET / REMOVE / ADD a key attribute; both SDK clients against a model keyed by the tuple of key values: distinct keys never overwrite each other, malformed keys give a validation error and change nothing, after every successful UpdateItem the stored key attributes equal the addressing key. One case in eight is a dense key space instead: every string (S and B parts) of length 1..2 or 1..3 over an alphabet of 2-3 characters drawn from separator, escape, control and ordinary characters (two thirds of them containing the implementation's own separator '.'), or 4-10 numbers that differ only far beyond float64 / six-decimal precision (N parts), as hash-only or as the full hash x range product (up to 1521 keys), each stored with its own payload on both clients, read back by GetItem and counted by Scan, then every third key deleted and all keys read again. Non-trivial = history with two distinct keys whose renderings share a prefix or contain a separator, or an update that targets a key attribute; distinct = hash of the operation list."
+const ruleC13 = "rapid state machine: hash-only and hash+range tables with S/N/B key types, created with CreateTable or the AddTable helper; keys drawn from a pool built from the implementation's own separator characters ('.', '|', '[', ' ', near collisions such as (\"a.b\",\"c\") vs (\"a\",\"b.c\"), prefixes, numerals) over Put / Get / Delete / UpdateItem, plus requests whose key lacks an attribute or has it with the wrong type (every operation) and updates that SET / REMOVE / ADD a key attribute; both SDK clients against a model keyed by the tuple of key values: distinct keys never overwrite each other, malformed keys give a validation error and change nothing, after every successful UpdateItem the stored key attributes equal the addressing key. One case in eight is a dense key space instead: every string (S and B parts) of length 1..2 or 1..3 over an alphabet of 2-3 characters drawn from separator, escape, control and ordinary characters (two thirds of them containing the implementation's own separator '.'), or 4-10 numbers that differ only far beyond float64 / six-decimal precision (N parts), as hash-only or as the full hash x range product (up to 1521 keys), each stored with its own payload on both clients, read back by GetItem and counted by Scan, then every third key deleted and all keys read again. Non-trivial = history with two distinct keys whose renderings share a prefix or contain a separator, or an update that targets a key attribute; distinct = hash of the operation list."
 
 // TestC13 decides property C13.
 func TestC13(t *testing.T) {
@@ -293,6 +293,14 @@ func TestC13(t *testing.T) {
 		w := newWorld("C13", worldCfg{V1: true, V2: true, WhiteBox: true, GetKeys: true})
 		w.drawCheckPeriod(rt)
 		s := drawSchema(rt, "tbl", schemaCfg{KeyTypes: []string{"S", "S", "S", "N", "B"}, MaxIndexes: 1})
+		if rapid.IntRange(0, 5).Draw(rt, "viaAddTable") == 4 {
+			// the AddTable helper (string keys only)
+			s = model.Schema{Table: "tbl", Hash: "pk", Attrs: map[string]string{"pk": "S"}, Billing: "PAY_PER_REQUEST", ViaAddTable: true}
+			if rapid.Bool().Draw(rt, "addTableRange") {
+				s.Range = "sk"
+				s.Attrs["sk"] = "S"
+			}
+		}
 		o := avOpts(1, true)
 		g := newTgen(rt, s, o, 1)
 		// rebuild the key pool from the collision-prone values
